@@ -52,13 +52,13 @@ Definition canon (k : pkind) (v : pvals) (p : vec) : pstate :=
   mkP k (canon_vals k v) p (fresh_fun k v) true (segments (v_rad v) (v_len v)).
 
 Ltac unfold_model :=
-  cbv [construct0 run_init init_ops raw_vals zero_vals step function_changed notify attach has_field guarded
+  cbv [construct0 run_script init_script zero_vals action step function_changed notify attach has_field guarded
        with_vals with_pol with_fun with_geom set mkvals get fld_eqb kind vals pol efun att geom
        a_vals a_pol v_ed v_pe v_pl v_sx v_sy v_sz v_mz v_wz v_sw v_wl v_rad v_len
        negb andb canon canon_vals fresh_fun args_of valid positive_fields forallb
        Qle_bool Qnum Qden Z.leb Z.compare Z.mul fst snd clean].
 Ltac unfold_model_in H :=
-  cbv [construct0 run_init init_ops raw_vals zero_vals step function_changed notify attach has_field guarded
+  cbv [construct0 run_script init_script zero_vals action step function_changed notify attach has_field guarded
        with_vals with_pol with_fun with_geom set mkvals get fld_eqb kind vals pol efun att geom
        a_vals a_pol v_ed v_pe v_pl v_sx v_sy v_sz v_mz v_wz v_sw v_wl v_rad v_len
        negb andb canon canon_vals fresh_fun args_of valid positive_fields forallb
@@ -164,7 +164,9 @@ Lemma step_good k s o : good k s -> clean k o = true ->
 Proof.
   intros (v & p & Hv & Hp & ->) Hc Hq.
   exists (vals (fst (step c (canon k v p) o))), (pol (fst (step c (canon k v p) o))).
-  destruct o as [f x | q | ].
+  destruct o as [f x | q | | t].
+  4:{ destruct t as [f|]; [|split; [cbn [step fst vals canon]; rewrite valid_canon; exact Hv | split; [exact Hp | destruct k, v; reflexivity]]].
+      unfold step. cbn [kind canon]. destruct (has_field k f); cbn [fst vals pol canon]; (split; [rewrite valid_canon; exact Hv | split; [exact Hp | destruct k, v; reflexivity]]). }
   2:{ split; [cbn [step fst with_pol vals canon]; rewrite valid_canon; exact Hv|]. split; [exact Hq|]. destruct k, v; reflexivity. }
   2:{ split; [cbn [step fst attach with_geom vals canon]; rewrite valid_canon; exact Hv|]. split; [exact Hp|]. destruct k, v; reflexivity. }
   pose proof (valid_tests k v Hv) as T.
@@ -197,9 +199,10 @@ Qed.
 
 Lemma pstep_good k s o : good k s -> clean k o = true -> good k (fst (pstep c s o)).
 Proof.
-  intros Hg Hc. destruct o as [f x | q | ]; unfold pstep.
+  intros Hg Hc. destruct o as [f x | q | | t]; unfold pstep.
   - apply step_good; auto.
   - destruct (vec_is_zero q) eqn:E; [exact Hg | apply step_good; auto].
+  - apply step_good; auto.
   - apply step_good; auto.
 Qed.
 
